@@ -147,7 +147,8 @@ def furthest_rule(ctx, p, K):
     grid_ref = rc.get("grid_2d_slim")
     okc = isinstance(grid_ref, Ref) and grid_ref.name.startswith("grid_2d_slim_over_sampled_via_mask_from#")
     ctx.ob(rule, h.key + ":centre", okc, where=h, node=cc, construct=repr(grid_ref)[:120], message="the reference centre must be the bounding-box centre of that pixel-unit grid")
-    sts = H.stores_to("sub_border_pixels")
+    outs = H.returned_array_names()
+    sts = H.stores_to(outs[0]) if len(outs) == 1 else []   # the returned array, whatever it is called
     okl = len(sts) == 1 and len(sts[0].loops) == 1 and sts[0].loops[0].lo == ZERO and sts[0].loops[0].step == ONE
     okf = False
     det = ""
